@@ -148,6 +148,16 @@ def body_bytes(body):
         raw = dumps(body["v"]).encode()
     elif f in ("text", "rawtext"):
         raw = body["text"].encode()
+    elif f == "rawmsgs":
+        ts = body["texts"]
+        if body["enc"] == "json":
+            raw = ts[0].encode()
+        elif body["enc"] == "batch":
+            raw = ("[" + ",".join(ts) + "]").encode()
+        elif body["enc"] == "sse-split":
+            raw = "".join("data: " + t[:len(t) // 2].rsplit(",", 1)[0] + ",\ndata: " + t[len(t[:len(t) // 2].rsplit(",", 1)[0]) + 1:] + "\n\n" for t in ts).encode()
+        else:
+            raw = "".join((["", "event: message\n"][k % 2]) + "data: " + t + "\n\n" for k, t in enumerate(ts)).encode()
     elif f == "odd":
         raw = ("data: " + dumps(body["v"]) + "\n\n").encode() if body.get("sse") else dumps(body["v"]).encode()
     elif f == "sse":
@@ -177,6 +187,25 @@ def body_bytes(body):
 CT_HEADER = {"json": "application/json", "sse": "text/event-stream", "other": "text/plain", "absent": None}
 
 
+def ct_header(b):
+    """the Content-Type header the scripted server sends (None = no header)"""
+    return b["ctv"] if b.get("ctv") is not None else CT_HEADER[b["ct"]]
+
+
+def ct_class(b):
+    """what kind of answer the header declares: media types are case-insensitive (RFC 9110 8.3.1), parameters
+    and surrounding blanks do not matter"""
+    h = ct_header(b)
+    if h is None:
+        return "absent"
+    low = h.lower()
+    if "application/json" in low:
+        return "json"
+    if "text/event-stream" in low:
+        return "sse"
+    return "other"
+
+
 def model_behaviour(b):
     """the behaviour as the Lean driver takes it"""
     if "exc" in b:
@@ -197,12 +226,12 @@ def model_behaviour(b):
             enc = mm.group(1)
         except LookupError:
             pass
-    if b["ct"] == "json":
+    if ct_class(b) == "json":
         enc = "utf-8"
     text = raw.decode(enc, "replace")
-    if b["ct"] == "json" and ok and raw.startswith(b"\xef\xbb\xbf"):
+    if ct_class(b) == "json" and ok and raw.startswith(b"\xef\xbb\xbf"):
         text = raw[3:].decode("utf-8")
-    return {"status": b["status"], "ct": b["ct"], "sess": b.get("sess"), "text": text, "utf8": ok}
+    return {"status": b["status"], "ct": ct_class(b), "cth": ct_header(b), "sess": b.get("sess"), "text": text, "utf8": ok}
 
 
 # ------------------------------------------------------------------------------- expectations
@@ -249,7 +278,7 @@ def expect(b):
         cls = "json-not-message"
     elif f == "text":
         cls = "non-json"
-    elif f in ("rawtext", "odd"):
+    elif f in ("rawtext", "odd", "rawmsgs"):
         # a body whose reading is left to the code (does it parse? does the message class take it?): the property
         # only fixes the number of terminals — exactly one when the body is a response to this request at all
         return {"cls": None, "srv": [], "strict": False, "mangled": bool(body.get("own_terminal")), "free": True,
@@ -264,7 +293,7 @@ def expect(b):
         # a byte-order mark in front of the body / a declared charset that is not the bytes' encoding: whether
         # the body is still read is the code's business; the request ends with exactly one terminal
         return {"cls": None, "srv": [], "strict": False, "mangled": True, "free": True}
-    strict = (f in ("json", "batch") and b["ct"] == "json") or (f == "sse" and b["ct"] == "sse")
+    strict = (f in ("json", "batch") and ct_class(b) == "json") or (f == "sse" and ct_class(b) == "sse")
     return {"cls": None, "srv": body_msgs(body), "strict": strict, "mangled": False}
 
 
@@ -687,10 +716,11 @@ MAGIC_STR = ["message", "response", "event:", "data:", "event: ", "data: ", "unk
              "No JSON-RPC response in HTTP reply", "transport-detect", "2.0", "jsonrpc", "id", "error", "result", "method"]
 MAGIC_CODES = [-32603, -32700, -32000, 0, 202, 400]
 CT_VARIANTS = {
-    "json": ["application/json; charset=utf-8", "application/json;charset=UTF-8", " application/json ", "application/json; profile=\"x\""],
-    "sse": ["text/event-stream; charset=utf-8", "text/event-stream;charset=utf-8", "text/event-stream; x=y"],
-    # the code matches media types case-sensitively and by substring: these reach its "other" branch
-    "other": ["Application/JSON", "TEXT/EVENT-STREAM", "application/octet-stream", "text/html; charset=utf-8", "application/x-ndjson", ""],
+    "json": ["application/json; charset=utf-8", "application/json;charset=UTF-8", " application/json ", "application/json; profile=\"x\"",
+             "Application/JSON", "APPLICATION/JSON; Charset=UTF-8", "application/Json"],
+    "sse": ["text/event-stream; charset=utf-8", "text/event-stream;charset=utf-8", "text/event-stream; x=y",
+            "TEXT/EVENT-STREAM", "Text/Event-Stream; charset=utf-8"],
+    "other": ["application/octet-stream", "text/html; charset=utf-8", "application/x-ndjson", "", "Text/Plain", "application/jso"],
 }
 HNAMES = ["mcp-session-id", "Mcp-Session-Id", "MCP-SESSION-ID"]
 SESSION_VALUES = ["0", "false", "%s", "{0}", "a" * 512, "sess-A", "None", "null"]
@@ -1359,3 +1389,48 @@ def hardening3(rng, budget):
         c["hk"] = "unicode-twin-ids"
         out.append(c)
     return decorate(out, salt=9)
+
+
+# ------------------------------------------------------------------------------- round 6: encoding twins
+
+EDGE_TOKENS = ['"\\ud83d"', '"\\udc00 tail"', '"ok \\ud83d\\ude00"', "1e400", "-1e400", "1e-400", "NaN", "Infinity", "-Infinity",
+               "9223372036854775807", "9223372036854775808", "18446744073709551615", "18446744073709551616", "-9223372036854775809",
+               "1" + "0" * 40, "-0.0", "0.0", "-0", "1.5", "1E5", "1e+2", "0.1e1", "[" * 40 + "]" * 40, '"\\u0000"', '"\\/"',
+               '{"k":1,"k":2}', "true", "null", '""', "7"]
+TWIN_ENCODINGS = [("json", "json"), ("batch", "json"), ("sse", "sse"), ("sse-split", "sse"), ("json", "other"), ("json", "absent"),
+                  ("sse", "absent"), ("batch", "other")]
+
+
+def twin_cases(quick=True):
+    """the same server message — with a value at an edge of the JSON grammar or of a decoder — through every body
+    encoding in ONE case (one request per encoding): what is delivered must not depend on the encoding"""
+    out = []
+    for n, tok in enumerate(EDGE_TOKENS):
+        for where in ("result", "params", "error-data"):
+            if quick and where != "result" and n % 3:
+                continue
+            reqs = []
+            for k, (enc, ct) in enumerate(TWIN_ENCODINGS):
+                rid = {"i": 600 + k}
+                tag = f"tw{n}"
+                if where == "result":
+                    main = '{"jsonrpc":"2.0","id":%d,"result":{"tag":"%s","v":%s}}' % (600 + k, tag, tok)
+                    texts = [main]
+                elif where == "error-data":
+                    texts = ['{"jsonrpc":"2.0","id":%d,"error":{"code":-32001,"message":"no","data":{"tag":"%s","v":%s}}}' % (600 + k, tag, tok)]
+                else:
+                    texts = ['{"jsonrpc":"2.0","method":"notifications/message","params":{"tag":"%s","v":%s}}' % (tag, tok),
+                             '{"jsonrpc":"2.0","id":%d,"result":{"tag":"%s"}}' % (600 + k, tag)]
+                if enc == "json" and len(texts) > 1:
+                    enc_k = "batch"
+                else:
+                    enc_k = enc
+                if enc_k == "batch" and len(texts) == 1:
+                    texts = ['{"jsonrpc":"2.0","method":"notifications/message","params":{"tag":"%s-b"}}' % tag] + texts
+                body = {"form": "rawmsgs", "texts": texts, "enc": enc_k, "own_terminal": True, "tag": tag}
+                reqs.append(mkreq(rid, response_b(200, ct, body)))
+            c = mkcase(reqs)
+            c["twins"] = True
+            c["hk"] = "encoding-twins/" + where
+            out.append(c)
+    return out
